@@ -61,6 +61,13 @@ pub const FOOTERS: &[(&str, i32, &str, i32, &str)] = &[
 
 pub const N_STATIC: u8 = 3;
 
+/// Second expansions of the `get!` zones of `interp.rs` (`S0`..`S2`), in
+/// another module so that they are other static data: equality of static
+/// handles must be by value, not by address.
+pub static T0: jiff::tz::TimeZone = jiff::tz::get!("America/New_York");
+pub static T1: jiff::tz::TimeZone = jiff::tz::get!("Europe/Dublin");
+pub static T2: jiff::tz::TimeZone = jiff::tz::get!("Asia/Kolkata");
+
 #[derive(Clone, Debug, PartialEq, Eq, Hash, Serialize, Deserialize)]
 pub enum Spec {
     Utc,
@@ -96,6 +103,9 @@ impl Spec {
     pub fn canon(&self) -> Spec {
         match self {
             Spec::Fixed(0) => Spec::Utc,
+            // `Static(i + N_STATIC)` is a second expansion of the same
+            // `get!` in another module: other static data, same zone.
+            Spec::Static(i) => Spec::Static(i % N_STATIC),
             s => s.clone(),
         }
     }
@@ -300,7 +310,7 @@ pub fn fresh_spec(rng: &mut Rng) -> Spec {
         3 => Spec::Posix(rng.below(POSIX.len() as u64) as u8),
         4 => Spec::TzifReal(rng.below(crate::zonegen::REAL_TZIF.len() as u64) as u8),
         5 => Spec::TzifSynth { k: 1 + rng.below(50) as u32, tr: rng.chance(1, 2) },
-        6 => Spec::Static(rng.below(N_STATIC as u64) as u8),
+        6 => Spec::Static(rng.below(2 * N_STATIC as u64) as u8),
         7 => Spec::TzifNamed { name: rng.below(2) as u8, k: 1 + rng.below(3) as u32 },
         8 => Spec::TzifBundled(rng.below(N_STATIC as u64) as u8),
         _ => Spec::TzifFooter(rng.below(FOOTERS.len() as u64) as u8),
